@@ -264,7 +264,11 @@ impl Number {
             Number::Fixnum(num) => num.unsigned_abs().into(),
             Number::Float(num) => num.abs().into(),
             Number::BigInt(num) => num.abs().into(),
-            Number::Rational(num) => num.abs().into(),
+            Number::Rational(num) => match num.numer().checked_abs() {
+                Some(numer) => Rational32::new(numer, *num.denom()).into(),
+                None if num.is_integer() => Number::Fixnum(-(i32::MIN as i64)),
+                None => num.to_f64().unwrap_or(f64::NAN).abs().into(),
+            },
         }
     }
 
